@@ -759,7 +759,7 @@ func TestC01(t *testing.T) {
 	runCore(t, coreCfg{prop: "C01", extra: streamOffered, profile: profC01, quickSeeds: 40, thoroughSeeds: 1600, nops: 100, drain: true})
 }
 func TestC02(t *testing.T) {
-	runCore(t, coreCfg{prop: "C02", profile: profC02, quickSeeds: 40, thoroughSeeds: 1600, nops: 100, drain: true})
+	runCore(t, coreCfg{prop: "C02", extra: waitingPullCurrentPolicy("C02"), profile: profC02, quickSeeds: 40, thoroughSeeds: 1600, nops: 100, drain: true})
 }
 
 // streamInitialAck: acknowledgements carried by the first request of a StreamingPull are final too
@@ -902,7 +902,7 @@ func TestC05(t *testing.T) {
 	runCore(t, coreCfg{prop: "C05", extra: orderedStream, profile: profC05, quickSeeds: 40, thoroughSeeds: 1600, nops: 100, drain: true})
 }
 func TestC06(t *testing.T) {
-	runCore(t, coreCfg{prop: "C06", profile: profC06, quickSeeds: 40, thoroughSeeds: 1600, nops: 100, drain: true})
+	runCore(t, coreCfg{prop: "C06", extra: waitingPullCurrentPolicy("C06"), profile: profC06, quickSeeds: 40, thoroughSeeds: 1600, nops: 100, drain: true})
 }
 func TestC13(t *testing.T) {
 	runCore(t, coreCfg{prop: "C13", profile: profC13, quickSeeds: 40, thoroughSeeds: 1600, nops: 100})
